@@ -346,6 +346,8 @@ def _expr_tokens(e):
     for t in toks:
         if isinstance(t, tuple):
             out.extend(t)          # call name and '(' may be separated by white space
+        elif t.startswith('[') and len(t) > 2:
+            out.extend(['[', t[1:]])       # white space after the opening bracket of a [bracketed name] is not part of the name
         else:
             out.append(t)
     return out
